@@ -19,6 +19,12 @@ Mutation testing (scratch worktree on top of the fix commits, selftest/mutations
   M10 Write1 drops the byte when the buffer is exactly full        tests ok    VIOLATION
   M11 worker sets WriteBuf.conn only for its first task            tests ok    VIOLATION (two connections
       (response goes to another connection)                                    share the worker pool)
+  S1  seeded/C40-no-resetwrite-on-error: request() recover handler  tests ok    VIOLATION
+      no longer calls ResetWrite (error after output has started is             (bin/seedtest; Asof on an update
+      read as success by the client)                                            transaction: local err, remote ok 0)
+      covered by csdiff ops that fail AFTER the handler has begun its reply: Asof on an update
+      transaction, Run/Exec results that cannot be packed (function, class, builtin) or exceed
+      the 1 MB limit
 (VERIF_SKIP_MC=1 skips only the exhaustive TLC runs of the unchanged models.)
 """
 import json, os
